@@ -50,5 +50,10 @@ func (dp DeepParsedProducer) IsDeep() bool { return true }
 
 // GetDeepSlice for a DeepParsedProducer returns a singular slice containing the deep ProduceTrigger
 func (dp DeepParsedProducer) GetDeepSlice() []*annotation.ProduceTrigger {
+	if dp.DeepProducer == nil {
+		// A producer that only carries field producers (e.g., for a struct literal) has no deep
+		// producer; returning a slice with a nil element would later be matched against consumers.
+		return nil
+	}
 	return []*annotation.ProduceTrigger{dp.DeepProducer}
 }
